@@ -22,6 +22,8 @@ func main() {
 	switch *mode {
 	case "csum":
 		runCsum(*n)
+	case "auth":
+		runAuth(*n)
 	default:
 		vt.Fatal("unknown mode %q", *mode)
 	}
